@@ -453,6 +453,11 @@ func TestCheck(t *testing.T) {
 		}
 		t.Skip("replay: scenarios are self-describing in the replay file")
 	}
+	if os.Getenv("VERIF_C09_ONLY") == "abort" { // development aid
+		abortPart(t, c)
+		report.ExitCode = c.Finish()
+		return
+	}
 	nfiles := c.Pick(2, 3)
 	sizes := []int{2, 1000}
 	if c.Thorough() {
